@@ -19,6 +19,7 @@ def run(facts, tier):
         ("container allocators", c19_rules.container_allocators, 25, "with every family instantiated with a non-std user allocator (drivers/x_alloc.cpp): no container, string or member container in allocator-parameterised library code uses another allocator type, and every container construction passes an allocator instance or copies/moves a container"),
         ("foreign memory", c19_rules.foreign_memory, 0, "no new/delete/malloc outside the user's allocator (reviewed exception: CPC compressor tables)"),
         ("dangling references", c19_rules.dangling_returns, 50, "no function returns a reference to a local object"),
+        ("reset completeness", lambda fa: c19_rules.reset_completeness(fa, None), 35, "every field a mutator modifies is re-initialised by reset() (a reused object equals a fresh one); reviewed exceptions are configuration fields"),
         ("tautologies", lambda fa: generic_lints.tautologies(fa, None), 2, "no comparison / assignment / min-max with two identical operands, no if-else with identical arms"),
         ("duplicate operands", lambda fa: generic_lints.duplicate_conjuncts(fa, None), 2, "no logical chain tests the same operand twice (copy-paste of the wrong peer)"),
         ("stale aliases", lambda fa: generic_lints.stale_aliases(fa, None), 1, "no use of a local pointer alias after its origin was re-assigned and the replaced object released (use after free; the replacement never receives the operation)"),
